@@ -182,6 +182,25 @@ example : ∃ s e, Reachable s ∧ lookup s.table 0 = some e ∧ e.refcnt ≤ 1 
   ⟨run {} [.connected 0, .disconnected 0, .shutdownCall 0, .connected 0], { peer := 0, refcnt := 1, qid := 1 },
     ⟨_, rfl⟩, by decide, by decide, by decide⟩
 
+/-- **`GetProcess` never hands out a dead queue** (oracle class `returned-dead`): on every schedule the
+    process it returns exists, belongs to the peer, its goroutine has not ended and `Disconnected` is
+    not about to shut it down. -/
+theorem getProcess_not_exited {s : State} (h : Reachable s) (p : Nat) :
+    ∃ q ∈ (getProcess s p).1.queues, q.id = (getProcess s p).2 ∧ q.peer = p ∧ q.exited = false ∧ q.pending = false := by
+  have hi : Inv (getOrCreate s p).1 := h.inv.getOrCreate p
+  have hmem : (getOrCreate s p).2 ∈ (getOrCreate s p).1.table ∧ (getOrCreate s p).2.peer = p := by
+    rcases getOrCreate_cases s p with ⟨e, hl, hg⟩ | ⟨_, hg⟩
+    · rw [hg]; exact lookup_some hl
+    · rw [hg]; exact ⟨by simp, rfl⟩
+  obtain ⟨q, hq, h1, h2, h3, h4⟩ := hi.entry _ hmem.1
+  exact ⟨q, hq, h1, h2.trans hmem.2, h3, h4⟩
+
+/-- … but it may hand out a queue that has been told to stop: one that shut itself down after a
+    connection failure stays in the table until its goroutine ends (see `told_to_stop_exits`). -/
+theorem getProcess_may_return_stopping :
+    ∃ s, Reachable s ∧ ∃ q ∈ (getProcess s 0).1.queues, q.id = (getProcess s 0).2 ∧ q.shutdown = true ∧ q.exited = false :=
+  ⟨run {} [.connected 0, .selfShutdown 0], ⟨_, rfl⟩, { id := 0, peer := 0, shutdown := true }, by decide, by decide, rfl, rfl⟩
+
 /-! ## (S3) messages leave in the order they were queued
 
 Model `GS.MQ`.  A message is a builder; builders get consecutive topics in the order they are started
@@ -198,19 +217,17 @@ open GS.MQ in
     still queued comes after everything already on the wire, and the queued builders are in
     creation order. -/
 theorem fifo {pick : GS.Alloc.Pick} {peer mr mt mp : Nat} {s : GS.MQ.State} (h : MQReachable pick peer mr mt mp s) :
-    (wiresOf s.log).Pairwise (· < ·) ∧
-    (s.pc ≠ .exited → (topicsOf s.builders).Pairwise (· < ·) ∧
-      ∀ w ∈ wiresOf s.log, ∀ t ∈ topicsOf s.builders, w < t) := by
+    (wiresOf s.log).Pairwise (· < ·) ∧ (topicsOf s.builders).Pairwise (· < ·) ∧
+      ∀ w ∈ wiresOf s.log, ∀ t ∈ topicsOf s.builders, w < t := by
   obtain ⟨acts, rfl⟩ := h
-  rcases runActs_J pick (init_J peer mr mt mp) acts with hf | hn
-  · exact ⟨hf.wsorted, fun hne => absurd hf.pc hne⟩
+  have hn : NInv _ := runActs_J pick (init_J peer mr mt mp) acts
   · generalize runActs pick (init peer mr mt mp) acts = s at hn
     unfold NInv at hn
     have mid : ∀ {m : InFlight} {U : List Sub} {b : Bool}, Mid s m U [Kind.queued] b →
-        (wiresOf s.log).Pairwise (· < ·) ∧ (s.pc ≠ .exited → (topicsOf s.builders).Pairwise (· < ·) ∧
-          ∀ w ∈ wiresOf s.log, ∀ t ∈ topicsOf s.builders, w < t) := by
+        (wiresOf s.log).Pairwise (· < ·) ∧ (topicsOf s.builders).Pairwise (· < ·) ∧
+          ∀ w ∈ wiresOf s.log, ∀ t ∈ topicsOf s.builders, w < t := by
       intro m U b hm
-      refine ⟨hm.wsorted, fun _ => ⟨hm.sorted, ?_⟩⟩
+      refine ⟨hm.wsorted, hm.sorted, ?_⟩
       intro w hw t ht
       have h1 := hm.wbelow w hw
       have h2 := hm.mBelow.2 t ht
@@ -220,16 +237,16 @@ theorem fifo {pick : GS.Alloc.Pick} {peer mr mt mp : Nat} {s : GS.MQ.State} (h :
       · have h1' : w < (m.topic : Nat) := by simpa using h1
         exact Nat.lt_trans h1' h2
     cases hp : s.pc with
-    | idle => rw [hp] at hn; exact ⟨hn.wsorted, fun _ => ⟨hn.sorted, fun w hw t ht => (hn.wbelow w hw).2 t ht⟩⟩
-    | exiting => rw [hp] at hn; exact ⟨hn.wsorted, fun _ => ⟨hn.sorted, fun w hw t ht => (hn.wbelow w hw).2 t ht⟩⟩
-    | exited => rw [hp] at hn; exact absurd hn (fun x => x)
+    | idle => rw [hp] at hn; exact ⟨hn.wsorted, hn.sorted, fun w hw t ht => (hn.wbelow w hw).2 t ht⟩
+    | exiting => rw [hp] at hn; exact ⟨hn.wsorted, hn.sorted, fun w hw t ht => (hn.wbelow w hw).2 t ht⟩
+    | exited => rw [hp] at hn; exact ⟨hn.wsorted, hn.sorted, fun w hw t ht => (hn.wbelow w hw).2 t ht⟩
     | opening m r =>
       rw [hp] at hn
       cases r with
-      | none => obtain ⟨U, hm⟩ := hn; rw [← hp]; exact mid hm
-      | some i => obtain ⟨U, hm⟩ := hn; rw [← hp]; exact mid hm
-    | sending m i => rw [hp] at hn; obtain ⟨U, hm⟩ := hn; rw [← hp]; exact mid hm
-    | resetting m i => rw [hp] at hn; obtain ⟨U, hm⟩ := hn; rw [← hp]; exact mid hm
+      | none => obtain ⟨U, hm⟩ := hn; exact mid hm
+      | some i => obtain ⟨U, hm⟩ := hn; exact mid hm
+    | sending m i => rw [hp] at hn; obtain ⟨U, hm⟩ := hn; exact mid hm
+    | resetting m i => rw [hp] at hn; obtain ⟨U, hm⟩ := hn; exact mid hm
 
 open GS.MQ in
 /-- **(S3) FIFO inside a message**: an operation of a transaction appends its link at the end of its
@@ -255,14 +272,28 @@ theorem fifo_links (b : Builder) (r : Req) (c sz : Nat) (send : Bool) :
 
 `no_outlive` above says: after the last disconnect every queue of the peer has been *told* to shut down
 (`Shutdown()` = `Act.shutdown`, sets `done`).  Here, in the queue model `GS.MQ`: such a queue exits.
-After `Disconnected` the queue is out of the peer table, so nobody builds on it any more (except
-through a stale handle — that is the C15/C16 dead-queue finding); accordingly the system `LSysQ` has
-the callers' steps `build`/`wake` disabled.  Fairness: weak fairness of {run, ack} (the queue goroutine
-is scheduled; the network answers the call it is blocked in — with any result). -/
+
+HYPOTHESIS of `told_to_stop_exits`, stated as the system `LSysQ`: no caller builds on the queue after
+it was told to stop (`build`/`wake` disabled).  When is that true?
+* a queue stopped by `Disconnected` is out of the peer table first (`disconnected_last`), so `GetProcess`
+  cannot hand it out any more; only a caller that obtained the handle earlier can still build on it
+  (such a build is drained or rejected with `Error` since the messagequeue fix — C16);
+* it is NOT true by construction of a queue that shut ITSELF down (`initializeSender` failed →
+  `mq.Shutdown()`): it stays in the peer table until its goroutine has ended, and `GetProcess` keeps
+  returning it (`getProcess_may_return_stopping`; it is never returned after it has ended:
+  `getProcess_not_exited`).  Builds that arrive while `done` is set but the goroutine has not yet
+  taken the `done` branch are accepted, and Go's `select` between `outgoingWork` and `done` is
+  resolved by `Act.run preferWork`; an adversarial schedule that keeps building and always prefers
+  work postpones the exit forever.  Go's `select` chooses uniformly at random, which the model does
+  not express; the theorem therefore assumes the callers stop.  No PM×MQ product model was built.
+Fairness: weak fairness of {run, ack} (the queue goroutine is scheduled; the network answers the call
+it is blocked in — with any result). -/
 
 open GS.MQ GS.Temporal in
-/-- **told to shut down ⇒ exits** (on every weakly fair execution without further builds, from any
-    state satisfying the signal/retry invariant `TK`, e.g. any reachable state: `runActs_tk`) -/
+/-- **told to shut down ⇒ exits**, under the hypothesis that callers have stopped building on the queue
+    (system `LSysQ`; see the section comment for when that holds and when it does not), on every weakly
+    fair execution from any state satisfying the signal/retry invariant `TK`, e.g. any reachable
+    state (`runActs_tk`) -/
 theorem told_to_stop_exits {pick : GS.Alloc.Pick} {σ : Nat → GS.MQ.State} (h0 : TK (σ 0))
     (hex : Exec (LSysQ pick) σ) (hwf : WFAll (LSysQ pick) fairAct σ) :
     LeadsTo σ (fun s => s.done = true) (fun s => s.pc = .exited) := by
